@@ -18,8 +18,10 @@ func init() {
 			"(R2) every format identifier written (varint.Pack8) is the resolved format (first result of Validate*Format), never the raw AUTO-able parameter, and the data is serialized with that same resolved format; " +
 			"(R3) the mime type announced follows the format used: MimeDump returns FormatToMimeType[format], DumpToHTTPResponse sets Content-Type unconditionally before writing, DumpToHTTPRequest announces the format it serializes with; " +
 			"(R4) loaders slice their input only at the decoder's count on its success edge and reject an empty payload; (R5) dump functions do not return bytes that alias recycled (pooled) storage; (R6) every constant-bound index/slice of a byte slice or string in the repo functions statically reachable from the loaders (incl. the error-message helpers) is dominated by a length test implying the bound. " +
+			"(R7) error discipline over package formats/dsd: " + repoErrText + ". " +
 			"NOT decided: value equality through the third-party codecs (JSON/CBOR/MsgPack/YAML), compression correctness.",
-		Rules: []ruleFn{c09R1, c09R2, c09R3, c09R4, c09R5, c09R6},
+		Rules: []ruleFn{c09R1, c09R2, c09R3, c09R4, c09R5, c09R6,
+			repoErrRuleFor("C09-R7", 12, func(c *Ctx, fn *ssa.Function) bool { return short(fn.Pkg.Pkg.Path()) == "formats/dsd" }, map[string]string{})},
 	})
 }
 
